@@ -177,6 +177,7 @@ CANARIES = [
     # the old free-list run that joins the pending pages lies below the high-water mark
     ('commit-frees-one-page-too-many', 'C05', 'src/tx.rs', '                freelist.free(self.meta.freelist_page, self.num_freelist_pages);', '                freelist.free(self.meta.freelist_page, self.num_freelist_pages + 1);'),
     ('to-buckets-drops-write-permission', 'C07', 'src/cursor.rs', '        let bucket = self.bucket.clone();\n        let writable = self.writable;\n        Buckets {\n            i: self,', '        let bucket = self.bucket.clone();\n        let writable = false;\n        Buckets {\n            i: self,'),
+    ('db-tx-always-writable', 'C06', 'src/db.rs', '        Tx::new(self, writable)', '        Tx::new(self, true)'),
 ]
 
 
